@@ -1001,7 +1001,13 @@ def discharge(ctx: interp.Ctx, contract: Contract, res: Result, numenv: NumEnv, 
             entry = {"obligation": ob["name"], "kind": ob["kind"], "reason": how, "detail": detail}
             tri = triage(ob, numenv, seed, detail=detail, requires=[a for a in ctx.assumptions if a.get('origin') == 'requires'], assumptions=ctx.assumptions)
             entry.update(tri)
-            if tri.get("holds_numerically"):
+            if tri.get("holds_numerically") is None:
+                smt_det = detail if isinstance(detail, dict) else {}
+                smt_det = smt_det.get("smt", smt_det) if isinstance(smt_det.get("smt", None), dict) else smt_det
+                refuted = smt_det.get("z3") == "sat" or smt_det.get("cvc5") == "sat"
+                entry["holds_numerically"] = not refuted
+                (res.failed if refuted else res.undecided).append(entry)
+            elif tri.get("holds_numerically"):
                 res.undecided.append(entry)
             else:
                 res.failed.append(entry)
@@ -1290,8 +1296,9 @@ def triage(ob, numenv: NumEnv, seed, npoints=6, detail=None, requires=(), assump
             if witness:
                 break
     except Exception as e:
-        # the triage itself failed: no evidence either way -> the obligation stays undecided (never a violation)
-        return {"triage_error": repr(e)[:300], "holds_numerically": True, "numeric_worst": None}
+        # no native evaluation possible (e.g. abstract stubs without native semantics): the caller decides from the
+        # solver verdict alone -- a solver counter-model refutes the VC, anything else leaves it undecided
+        return {"triage_error": repr(e)[:300], "holds_numerically": None, "numeric_worst": None}
     out = {"numeric_worst": worst, "holds_numerically": witness is None and worst < 1e-7, "points_inside_precondition": valid_points}
     if model_error:
         out["solver_model_could_not_be_evaluated"] = model_error
